@@ -26,7 +26,17 @@ Tie to the source:
      order; `measure_2site` on windows (xrange, yrange) anywhere in the lattice for BOTH environments (origins with
      xrange[0] != yrange[0]), every string form of `pairs` and explicit lists of pairs (closed lists and lists with gaps; the
      returned set of pairs must be the requested one).
+     (iv) operators given PER SITE to `measure_nn` of EnvCTM / EnvBP over all bonds (function sitedict_probe): dicts site -> Tensor /
+     list / dict of operators with a different operator and amplitude on every site (the value stored under (s0 + nz0, s1 + nz1)
+     must be <O[s0][nz0] P[s1][nz1]>, the set of keys the one of the lattice bonds x entries); EVERY pair of corners of every 2x2
+     window in `measure_2x2` with odd operators chosen with the help of the dense reference so that the correlator does not vanish
+     (guided_pair: for some pairs the other corners carry only the fermionic string); spinful fermions with the product symmetry
+     U1xU1xZ2 (tuple-valued `config.fermionic`) on 'rich' states, incl. several 'windows'-only cases (mode 'windows': dense
+     reference + EnvCTM, only the cheap exact window contractions measure_2x2 / measure_nsite_exact are probed).
  (b) NTU bond metrics of every cluster type on every bond: anti-Hermitian part and smallest eigenvalue at round-off;
+     (quick tier: 4 sampled bonds on the lattices up to 3x2 / 2x3 that carry the full set of probes, and ALL bonds of several 3x3
+     lattices in metric-only cases, mode 'metrics': only there do the larger clusters reach existing sites in some directions and
+     the outside of the lattice in others);
      `evolution_step_` with a truncation that does not bind: dense state == dense state of the untruncated
      `apply_gate_` up to a scalar, `truncation_error` <= 1e-8; reported nonhermitian_part/min_eigenvalue at round-off.
      Besides EnvNTU with default options: EnvBP(which = 'BP' (bipartite metric, truncate_bipartite_), 'NN+BP', 'NNN+BP') after
@@ -59,6 +69,11 @@ DRIVER = "drv_c12"
 
 TOL = 1e-8            # expectation values, evolved state (observed error <= 5e-15: margin > 1e6)
 TOL_METRIC = 1e-10    # relative anti-Hermitian part / negative eigenvalue of a bond metric (observed <= 3e-16)
+# anti-Hermitian part: the '++' clusters cut corners into rank-1 hair pairs (cut_into_hairs, SVD with D_total=1) whose common phase is
+# whatever LAPACK returns: 0 or pi up to a deviation delta (observed up to 6e-12, not round-off of the metric itself); 'NNN++' on 3x3
+# lattices comes out as exp(2i delta) x (Hermitian matrix): relative anti-Hermitian part up to 1.3e-11 observed in 10^4 metrics (heavy
+# tail) -> separate tolerance with margin; a cluster contraction that is not Hermitian by construction gives >= 1e-3
+TOL_METRIC_AH = 1e-8
 TOL_TRUNC = 1e-8      # Evolution_out.truncation_error for a non-binding truncation (observed <= 2e-15)
 BIND = 1e-12          # discarded weight above which an internal zipper truncation counts as binding
 BIG_D = 4096
@@ -675,6 +690,45 @@ def run_probe(fam, env, probe):
                 raise ProbeKeys(f"measure_nn(bond=list) returned keys {sorted(got)} for the requested {sorted(bl)}")
             for (s0, s1), val in got.items():
                 out.append((names, [s0, s1], val))
+        elif probe.get("style") == "sitedict":
+            # EnvCTM / EnvBP, all bonds at once with the operators given PER SITE: O = {site: operator | list | dict of operators}
+            # (P likewise, or one Tensor for all sites).  The result is keyed (s0 + nz0, s1 + nz1) for every lattice bond
+            # (s0, s1), nz = () for a Tensor, (index,) for a list, (key,) for a dict, and holds <O[s0][nz0] P[s1][nz1]>
+            def per_site(spec):
+                real, meta = {}, {}
+                for k, ent in spec.items():
+                    s = tuple(map(int, k.split(",")))
+                    made = {}
+                    for key, nm, amp in ent["items"]:
+                        a = complex(*amp)
+                        made[key] = fam.opt[nm] if a == 1 else a * fam.opt[nm]
+                        meta[s + (() if ent["form"] == "t" else (key,))] = (nm, a)
+                    if ent["form"] == "t":
+                        real[s] = made[ent["items"][0][0]]
+                    elif ent["form"] == "l":
+                        real[s] = [made[i] for i in range(len(made))]
+                    else:
+                        real[s] = made
+                return real, meta
+            O, metaO = per_site(probe["O"])
+            if "P_plain" in probe:
+                nm, amp = probe["P_plain"]
+                P = complex(*amp) * fam.opt[nm]
+                metaP = {tuple(map(int, k.split(","))): (nm, complex(*amp)) for k in probe["O"]}
+            else:
+                P, metaP = per_site(probe["P"])
+            res = env.measure_nn(O, P)
+            got = {(tuple(int(x) for x in k0), tuple(int(x) for x in k1)): val for (k0, k1), val in res.items()}
+            lat = [(tuple(b[0]), tuple(b[1])) for b in probe["lattice_bonds"]]
+            want = {(k0, k1) for k0 in metaO for k1 in metaP if (k0[:2], k1[:2]) in lat}
+            if set(got) != want:
+                raise ProbeKeys(f"measure_nn(per-site operators) returned keys {sorted(got)} for the expected {sorted(want)}")
+            judged = None if probe.get("only_bonds") is None else {(tuple(b[0]), tuple(b[1])) for b in probe["only_bonds"]}
+            for (k0, k1), val in got.items():
+                if judged is not None and (k0[:2], k1[:2]) not in judged:
+                    continue
+                (n0, a0), (n1, a1) = metaO[k0], metaP[k1]
+                out.append(([n0, n1], [k0[:2], k1[:2]], complex(val) / (a0 * a1)))   # known non-zero amplitudes, 0.5 <= |a| <= 2
         elif probe.get("bond") is None:
             res = env.measure_nn(ops[0], ops[1])
             for (k0, k1), val in res.items():
@@ -836,6 +890,49 @@ def pair_list(rng, wsites, dirn):
     return [[list(a), list(b)] for a, b in lst], closed
 
 
+SITE_AMPS = ([1, 0], [1, 0], [-1, 0], [2, 0], [0.5, 0], [0, 1], [0, -2], [1, 1], [0.5, -0.5], [-1.5, 0], [0.6, 0.8])
+
+
+def sitedict_probe(rng, fam, kind, Nx, Ny, pair, only_bonds=None):
+    """measure_nn(O, P) over all bonds with the operators given per site (EnvCTM, EnvBP): on every site its own operator — a
+    random member of the class of operators carrying the same charge as pair[0] (resp. pair[1]), times a site-dependent
+    amplitude — as a Tensor, a list or a dict of operators (different lengths on different sites).  EnvBP takes this branch
+    only for a dict O (P may then be one Tensor); EnvCTM.measure_nn is documented for single tensors: at most ONE operator in
+    the entries of P (its loop re-uses the loop variable, see the notes)."""
+    cls = [[nm for nm in sorted(fam.opt) if fam.n[nm] == fam.n[p]] for p in pair]
+
+    def entry(c, nmax):
+        form = rng.choice(["t", "t", "t", "l", "d"])
+        n = 1 if form == "t" else rng.randint(1, nmax)
+        keys = [None] if form == "t" else (list(range(n)) if form == "l" else rng.sample(range(10), n))
+        return {"form": form, "items": [[k, rng.choice(cls[c]), list(rng.choice(SITE_AMPS))] for k in keys]}
+
+    sites = f_sites(Nx, Ny)
+    order = rng.sample(sites, len(sites))       # the sites of the dicts in any order
+    probe = {"fn": "measure_nn", "style": "sitedict", "ops": [], "lattice_bonds": all_bonds(Nx, Ny),
+             "O": {f"{x},{y}": entry(0, 2) for x, y in order}}
+    if rng.random() < 0.15:
+        probe["P_plain"] = [rng.choice(cls[1]), list(rng.choice(SITE_AMPS))]
+    else:
+        probe["P"] = {f"{x},{y}": entry(1, 1 if kind == "ctm" else 2) for x, y in rng.sample(sites, len(sites))}
+    if only_bonds is not None:
+        probe["only_bonds"] = only_bonds
+    return probe
+
+
+def guided_pair(rng, fam, guide, s0, s1, cands, floor=1e-4):
+    """a two-operator word on the sites {s0, s1} (either order) whose dense expectation value does not vanish, if there is one
+    among `cands` (a correlator that is zero by particle counting cannot reveal a wrong sign); else a random candidate"""
+    dense, v = guide
+    cands = rng.sample(cands, len(cands))
+    for a, b in cands:
+        for ss in rng.sample([(s0, s1), (s1, s0)], 2):
+            if abs(dense.expect(v, [a, b], [tuple(ss[0]), tuple(ss[1])])) > floor:
+                return [a, b], [list(ss[0]), list(ss[1])]
+    a, b = cands[0]
+    return [a, b], [list(s0), list(s1)]
+
+
 def plan_probes(rng, fam, kind, spec, Nx, Ny, quick, recipe=None, guide=None):
     """the measurements to run on one environment of one case (JSON)"""
     sites = f_sites(Nx, Ny)
@@ -885,6 +982,13 @@ def plan_probes(rng, fam, kind, spec, Nx, Ny, quick, recipe=None, guide=None):
         # a sequence of bonds in any order and orientation
         bl = [b if rng.random() < 0.5 else [b[1], b[0]] for b in rng.sample(bonds, rng.randint(2, len(bonds)))]
         probes.append({"fn": "measure_nn", "style": "bondlist", "ops": pick_pair(), "bonds": bl})
+    if kind in ("ctm", "bp") and bonds:
+        # all bonds at once with a DIFFERENT operator (and amplitude) on every site: dicts site -> Tensor / list / dict.
+        # (EnvBP on a tree-cut lattice: all bonds are returned, the bonds of the tree are judged)
+        only = bonds if (kind == "bp" and not chain) else None
+        for i in range(2 if kind == "bp" else 1):
+            pr = pick_pair() if i == 0 else [rng.choice(even1 + ["I"]), rng.choice(even1)]
+            probes.append(sitedict_probe(rng, fam, kind, Nx, Ny, pr, only))
     if kind == "bd" and bonds:
         # the dict forms {bond: (O, P)} / {bond: {key: (O, P)}}: a different pair of operators on every bond, the bonds listed
         # in ANY order (reversed lattice order as from psi.bonds(reverse=True), shuffled, a subset).  Only the boundaries that
@@ -965,6 +1069,7 @@ def plan_probes(rng, fam, kind, spec, Nx, Ny, quick, recipe=None, guide=None):
         probes.append({"fn": "measure_nsite", "ops": ["I", "I"], "sites": [list(rng.choice(sites)), list(rng.choice(sites))]})
     # many-operator correlators with overlapping fermionic strings (>= 3 charged operators on distinct sites)
     rich = bool(recipe) and recipe.get("flavour") == "rich"
+    light = bool(recipe) and recipe.get("mode") == "windows"
     if fam.fermionic and guide is not None and Nx * Ny >= 4:
         plan = []
         if has_lr:
@@ -977,7 +1082,7 @@ def plan_probes(rng, fam, kind, spec, Nx, Ny, quick, recipe=None, guide=None):
             if cand is not None:
                 probes.append({"fn": fn, "ops": cand[0], "sites": cand[1], "overlap": True})
         if kind == "ctm" and Nx >= 2 and Ny >= 2 and rich:
-            for _ in range(2 if quick else 6):
+            for _ in range(2 if (quick and not light) else 6):
                 x0, y0 = rng.randrange(Nx - 1), rng.randrange(Ny - 1)
                 win = [(x0, y0), (x0 + 1, y0), (x0, y0 + 1), (x0 + 1, y0 + 1)]
                 cand = overlap_word(rng, fam, guide, win, kmax=4)
@@ -994,6 +1099,14 @@ def plan_probes(rng, fam, kind, spec, Nx, Ny, quick, recipe=None, guide=None):
                     for k, distinct in ((4, True), (rng.choice([2, 3, 4]), False)):
                         word, ss = word_on(win, k, distinct)
                         probes.append({"fn": "measure_2x2", "ops": word, "sites": ss})
+                    if odd_pairs and guide is not None:
+                        # EVERY pair of corners of the window (the other two corners carry no operator, only — for some of the
+                        # pairs — the fermionic string) with odd operators whose correlator does not vanish in this state
+                        for i0 in range(4):
+                            for i1 in range(i0 + 1, 4):
+                                word, ss = guided_pair(rng, fam, guide, win[i0], win[i1], odd_pairs)
+                                probes.append({"fn": "measure_2x2", "ops": word, "sites": ss, "guided": True})
+                        continue
                     for c in win:     # every corner of the window once in a two-operator word (the other corners empty)
                         word, _ = word_on(win, 2, True)
                         other = rng.choice([w for w in win if w != c])
@@ -1014,6 +1127,9 @@ def plan_probes(rng, fam, kind, spec, Nx, Ny, quick, recipe=None, guide=None):
             for k, distinct in ((2, True), (min(3, len(line)), True), (rng.choice([2, 3]), False)):
                 word, ss = word_on(line, k, distinct)
                 probes.append({"fn": "measure_line", "ops": word, "sites": ss})
+    if light:
+        # mode 'windows': only the exact window contractions (cheap: ~0.01 s per probe) and the identity
+        probes = [p for p in probes if p["fn"] in ("measure_2x2", "measure_nsite_exact") or p["ops"] == ["I"]]
     return probes
 
 
@@ -1093,8 +1209,10 @@ def check_probe(ctx, fam, dense, v, recipe, kind, spec, env, probe, signs):
             ctx.count("2site:pairs=" + ("list-closed" if probe.get("pairs_closed") else "list-gaps") if isinstance(probe["pairs"], list) else "2site:pairs=str")
             if "xrange" in probe:
                 ctx.count("2site:window-origin:" + ("x0!=y0" if probe["xrange"][0] != probe["yrange"][0] else "x0==y0"))
-        if probe.get("style") in ("dict", "bondlist"):
-            ctx.count(f"nn:{probe['style']}")
+        if probe.get("style") in ("dict", "bondlist", "sitedict"):
+            ctx.count(f"nn:{probe['style']}" + (f":{ENV_KEY[kind]}" if probe["style"] == "sitedict" else ""))
+        if probe.get("guided"):
+            ctx.count("2x2-corner-pair:" + ("nonzero-ref" if abs(ref) > 1e-4 else "zero-ref"))
         if fam.fermionic and len(names) >= 2:
             signs.append((names, sites))
             if any(dense.rank[tuple(a)] > dense.rank[tuple(b)] for a, b in zip(sites, sites[1:])):
@@ -1175,9 +1293,10 @@ def check_metrics(ctx, recipe, psi, bonds, whichs):
             ctx.count("compared")
             ctx.count(f"metric:{which}")
             ctx.extra["max_metric_defect"] = max(ctx.extra.get("max_metric_defect", 0.0), ah, -emin)
-            if not (ah <= TOL_METRIC):
+            ctx.extra["max_metric_antihermitian"] = max(ctx.extra.get("max_metric_antihermitian", 0.0), ah)
+            if not (ah <= TOL_METRIC_AH):
                 ctx.fail("oracle", "c12:ntu:metric-hermitian",
-                         f"EnvNTU(which={which!r}) bond metric on bond {b} of {recipe['family']} {recipe['dims']}: relative anti-Hermitian part {ah:.3g} > {TOL_METRIC}",
+                         f"EnvNTU(which={which!r}) bond metric on bond {b} of {recipe['family']} {recipe['dims']}: relative anti-Hermitian part {ah:.3g} > {TOL_METRIC_AH}",
                          case=dict(case, antihermitian=ah), concrete=True)
             if not (emin >= -TOL_METRIC):
                 ctx.fail("oracle", "c12:ntu:metric-psd",
@@ -1335,7 +1454,7 @@ def check_evolution(ctx, fam, recipe, psi, gate, evo):
             # (bond metrics of NTU environments are Hermitian and positive semi-definite; min_eigenvalue is None for fix_metric=None)
             nh = float(abs(info.nonhermitian_part)) if info.nonhermitian_part is not None else 0.0
             me = float(info.min_eigenvalue) if info.min_eigenvalue is not None else 0.0
-            if not (nh <= TOL_METRIC) or not (me >= -TOL_METRIC):
+            if not (nh <= TOL_METRIC_AH) or not (me >= -TOL_METRIC):
                 ctx.fail("oracle", "c12:evolution:metric-report",
                          f"Evolution_out reports nonhermitian_part={nh:.3g}, min_eigenvalue={me:.3g} for a tree/exact cluster metric ({tag})",
                          case=dict(case, nonhermitian_part=nh, min_eigenvalue=me), concrete=True)
@@ -1378,6 +1497,15 @@ def run_case(ctx, recipe, quick, rng, signs, probes_override=None):
     from harness import core
     fam = family(recipe["family"])
     Nx, Ny = recipe["dims"]
+    if recipe.get("mode") == "metrics":
+        # metric-only case (no dense reference needed): EVERY bond of the lattice, every cluster type — on 3x3 lattices the
+        # clusters of a bond reach sites in every direction, some of which exist and some of which lie outside the lattice
+        g, psi = build_state(recipe)
+        D = max(psi.get_bond_dimensions().values()) if psi.get_bond_dimensions() else 1
+        ctx.count(f"maxD:{D}")
+        ctx.count("metric-only-case")
+        check_metrics(ctx, recipe, psi, all_bonds(Nx, Ny), NTU_WHICH)
+        return True
     dense = Dense(fam, Nx, Ny)
     g, psi = build_state(recipe)
     v = dense_of_peps(fam, psi)
@@ -1398,6 +1526,10 @@ def run_case(ctx, recipe, quick, rng, signs, probes_override=None):
     D = max(psi.get_bond_dimensions().values()) if psi.get_bond_dimensions() else 1
     ctx.count(f"maxD:{D}")
     kinds = ["bd", "ctm"] + (["bp"] if recipe["loopfree"] else [])
+    windows_only = recipe.get("mode") == "windows"
+    if windows_only:
+        kinds = ["ctm"]   # many states, each probed only through the cheap exact window contractions of EnvCTM (see plan_probes)
+        ctx.count("windows-only-case")
     weak = recipe.get("flavour") == "weak"
     if weak:
         kinds = []      # weakly entangled states serve the evolution step (correlators are O(step): little power for the measure_* probes)
@@ -1423,6 +1555,8 @@ def run_case(ctx, recipe, quick, rng, signs, probes_override=None):
             ctx.count(f"env:bd:opts_var:{opts_var_class(spec.get('opts_var'))}")
         for probe in plan_probes(rng, fam, kind, spec, Nx, Ny, quick, recipe, guide=(dense, v)):
             total += check_probe(ctx, fam, dense, v, recipe, kind, spec, env, probe, signs)
+    if windows_only:
+        return True
     # NTU metrics + one evolution step
     bonds = all_bonds(Nx, Ny)
     if quick and len(bonds) > 4:
@@ -1712,6 +1846,10 @@ QUICK_PLAN = [
     ("sf:Z2", 1, 3, "full"), ("sf:U1", 3, 1, "full"),
     # weakly entangled states (small steps): evolution steps only
     ("s12:Z2", 2, 2, "weak"), ("sf:U1", 2, 2, "weak"), ("sf:Z2", 1, 3, "weak"), ("sff:U1xU1", 2, 2, "weak"), ("sf:U1", 3, 1, "weak"),
+    # 3x3 lattices, bond metrics only (all bonds, all cluster types; ~1.5 s each)
+    ("sf:Z2", 3, 3, "rich+metrics"), ("sf:U1", 3, 3, "full+metrics"), ("s12:Z2", 3, 3, "rich+metrics"), ("sf:U1", 3, 3, "tree+metrics"),
+    # product symmetry with a tuple-valued fermionic flag on a state whose odd correlators do not vanish
+    ("sff:U1xU1xZ2", 2, 2, "rich"), ("sff:U1xU1xZ2", 2, 2, "rich+windows"), ("sff:U1xU1xZ2", 2, 2, "rich+windows"), ("sff:U1xU1xZ2", 2, 2, "rich+windows"),
     ("sf:U1", 2, 2, "full"), ("sf:Z2", 2, 2, "full"), ("s12:Z2", 2, 2, "full"), ("sff:U1xU1xZ2", 2, 2, "tree"),
     ("sf:Z2", 2, 3, "tree"), ("sf:U1", 3, 2, "rich"), ("sff:Z2", 2, 2, "full"), ("s12:dense", 2, 3, "full"),
     ("sf:Z2", 3, 2, "full"), ("sff:U1xU1", 2, 2, "tree"),
@@ -1740,6 +1878,9 @@ def thorough_plan(rng):
     plan += [("sf:Z2", 2, 3, "rich"), ("sf:Z2", 3, 2, "rich"), ("sf:U1", 3, 3, "rich"), ("sf:U1", 2, 4, "rich"),
              ("sff:U1", 2, 2, "rich"), ("sff:U1xU1xZ2", 2, 2, "rich"), ("sff:Z2", 2, 2, "rich"), ("sff:U1xU1", 2, 3, "rich"),
              ("sff:U1", 3, 2, "rich"), ("s12:Z2", 2, 3, "rich")]
+    # metric-only 3x3 cases and 'windows'-only cases (cheap): more states
+    plan += [(f, 3, 3, fl + "+metrics") for f in ("sf:U1", "sf:Z2", "s12:Z2", "s12:dense", "s12:U1") for fl in ("rich", "full", "tree")]
+    plan += [(f, 2, 2, "rich+windows") for f in fams_ff for _ in range(3)] + [("sf:U1", 2, 3, "rich+windows"), ("sf:Z2", 3, 2, "rich+windows")]
     # 'weak' states (small steps): evolution steps with every environment / option
     plan += [("sf:Z2", 2, 3, "weak"), ("s12:dense", 2, 2, "weak"), ("sf:Z2", 2, 2, "weak"), ("sff:Z2", 2, 2, "weak"), ("sff:U1", 2, 2, "weak"), ("sff:U1xU1xZ2", 2, 2, "weak"), ("s12:U1", 2, 2, "weak"),
              ("sf:U1", 1, 4, "weak"), ("sf:U1", 3, 2, "weak"), ("s12:Z2", 2, 3, "weak"), ("sf:Z2", 3, 3, "weak"), ("sff:U1xU1", 1, 3, "weak")]
@@ -1758,7 +1899,10 @@ def run(ctx):
                 "overlapping strings, against a NumPy Jordan-Wigner reference on to_tensor(); boundary MPSs built with random opts_var "
                 "(normalised / un-normalised refinement); dict / list input forms of measure_nn and measure_1site with the bonds / sites "
                 "in any order; measure_2site on windows anywhere in the lattice for both environments with every form of `pairs` incl. "
-                "explicit lists; NTU metrics of all six cluster types; evolution_step_ with non-binding truncation: EnvNTU with default "
+                "explicit lists; measure_nn of EnvCTM / EnvBP with per-site dicts of operators (Tensor / list / dict, site-dependent operator "
+                "and amplitude); measure_2x2 on every pair of corners of every window with reference-guided odd operators; 'windows'-only cases "
+                "(U1xU1xZ2 spinful fermions, exact CTM windows only); NTU metrics of all six cluster types, on all bonds of 3x3 lattices in "
+                "metric-only cases; evolution_step_ with non-binding truncation: EnvNTU with default "
                 "options and EnvBP (bipartite, NN+BP, NNN+BP) / EnvNTU with random valid options (pinv_cutoffs in any order, "
                 "initialization, max_iter, tol_iter, fix_metric, method, opts_svd list), strong and weak gates, also on weakly entangled "
                 "'weak' states.  A case is non-trivial if its circuit has a two-site gate; distinct by recipe")
@@ -1771,6 +1915,10 @@ def run(ctx):
         "method= and normalize= (a dict containing those keys is a TypeError by construction), and Schmidt_tol makes "
         "mps.compression_ raise ValueError('max() iterable argument is empty') on the one-site boundary MPSs of 1xN lattices "
         "(observation about mps.compression_, outside C12; not probed)",
+        "observation on the unchanged tree (no alarm, tolerance TOL_METRIC_AH): the EnvNTU 'NNN++' bond metric on 3x3 lattices equals "
+        "exp(2i delta) x (Hermitian PSD matrix) where delta is the deviation of the LAPACK phase of a rank-1 hair pair (cut_into_hairs) from "
+        "0 / pi — one member of a pair enters conjugated relative to its partner; delta <= 6e-12 observed, relative anti-Hermitian part up "
+        "to 1.3e-11 (e.g. sf:U1 3x3, bonds (0,0)-(0,1) and (0,0)-(1,0)); all other cluster types / lattices: <= 3e-15",
         "options of evolution_step_ NOT generated (observations on the unchanged tree, no alarm): max_iter=0 (optimize_truncation raises "
         "UnboundLocalError: no iteration, no result); opts_svd as a list of dicts together with EnvBP(which='BP') (truncate_bipartite_ "
         "passes the list to svd_with_truncation(**opts_svd): TypeError, although evolution_step_ documents Sequence[dict]); "
@@ -1789,7 +1937,7 @@ def run(ctx):
         "R1 gR R1^+ computed by the harness from the REAL EnvBP.bond_metric and QR factors of the real tensors (relative eigenvalues in "
         "[1e-14, 1e-9] -> skipped); the state tolerance there is 1e-6 (amplitude resolution of a 1e-13 cutoff on squared weights)",
     ]
-    t_budget = 65 if quick else 780
+    t_budget = 75 if quick else 780
     plan = list(QUICK_PLAN) if quick else thorough_plan(rng)
     if not quick:
         plan += [p for p in thorough_plan(rng) if p[1] * p[2] >= 4 and p[1] * p[2] <= 6]   # second circuits on the mid-size lattices
@@ -1804,12 +1952,15 @@ def run(ctx):
         if ctx.elapsed() > t_budget:
             ctx.count("plan-cut-by-time-budget", len(plan) - done)
             break
+        flavour, _, mode = flavour.partition("+")
         recipe = make_recipe(rng, fid, Nx, Ny, flavour)
+        if mode:
+            recipe["mode"] = mode
         signs = []
         ctx.case({"kind": "case", "recipe": recipe}, nontrivial=any("bond" in g for g in recipe["gates"]))
         ctx.count(f"lattice:{Nx}x{Ny}")
         ctx.count(f"family:{fid}")
-        ctx.count(f"flavour:{flavour}")
+        ctx.count(f"flavour:{flavour}" + (f"+{mode}" if mode else ""))
         t0 = time.time()
         try:
             with core.time_limit(CASE_LIMIT_QUICK if quick else CASE_LIMIT_THOROUGH):
@@ -1821,7 +1972,7 @@ def run(ctx):
         ctx.count("case-seconds", int(round(time.time() - t0)))
         done += 1
     correspond_signs(ctx, signs_by_family)
-    ctx.extra["tolerances"] = {"expectation": TOL, "metric": TOL_METRIC, "truncation_error": TOL_TRUNC, "binding": BIND,
+    ctx.extra["tolerances"] = {"expectation": TOL, "metric": TOL_METRIC, "metric_antihermitian": TOL_METRIC_AH, "truncation_error": TOL_TRUNC, "binding": BIND,
                                "truncation_error_pinv_paths": TOL_TRUNC_SQRT, "evolved_state_bipartite": TOL_BIPARTITE, "pinv_zone": list(PINV_ZONE)}
 
 
